@@ -213,6 +213,18 @@ def msg_sources(fx, b, op, path=()):
     return res
 
 
+def _whole_call(b, place):
+    """(bb, call terminator) if the place holds exactly the result of one call (through moves, tuples, Some(..) wrappers)."""
+    if not proj_path(place):
+        dc = def_call(b, {"copy": place})
+        if dc:
+            return dc
+    lv = b.trace(place)
+    if lv and all(l.kind == "call" and not l.path for l in lv) and len({l.data[0] for l in lv}) == 1:
+        return (lv[0].data[0], lv[0].data[1])
+    return None
+
+
 def check_threshold_core(ctx, prefix="C04"):
     """C04 D1-D5 on Metablock::verify."""
     fx = ctx.fx
@@ -370,11 +382,11 @@ def check_threshold_core(ctx, prefix="C04"):
                 lv = b.trace(f[1], (SOME, F0))
                 for lf in lv:
                     pass
-                dc = def_call(b, {"copy": f[1]}) if not proj_path(f[1]) else None
+                dc = _whole_call(b, f[1])
                 if dc and callee_name(dc[1]) in ("std::collections::HashMap::get", "std::collections::BTreeMap::get"):
                     got_some = (e, dc)
             if f[2] == "Ok":
-                dc = def_call(b, {"copy": f[1]}) if not proj_path(f[1]) else None
+                dc = _whole_call(b, f[1])
                 if dc and callee_name(dc[1]) == PK_VERIFY:
                     got_ok = (e, dc)
         ok4 = got_some is not None and got_ok is not None
